@@ -2,7 +2,5 @@ package main
 
 import "verifharness/lib"
 
-func genFarm(r *lib.Rand, tier string) History    { panic("todo") }
 func genService(r *lib.Rand, tier string) History { panic("todo") }
-func execFarm(h History) lib.Case                 { panic("todo") }
 func execService(h History) lib.Case              { panic("todo") }
